@@ -15,6 +15,7 @@ MODULES = [
     _mod("src/lib.rs", "verif/verif_spec.rs", "verif_spec", "pub(crate) "),
     _mod("src/lib.rs", "verif/verif_c16.rs", "verif_c16"),
     _mod("src/lib.rs", "verif/verif_proj.rs", "verif_proj"),
+    _mod("src/ring/mod.rs", "../verif/verif_ringn.rs", "verif_ringn"),
     _mod("src/nested/zordercurve.rs", "../verif/verif_zoc.rs", "verif_zoc"),
     _mod("src/nested/bmoc.rs", "../verif/verif_bmoc.rs", "verif_bmoc", "pub(crate) "),
     _mod("src/nested/mod.rs", "../verif/verif_uniq.rs", "verif_uniq"),
@@ -24,6 +25,7 @@ MODULES = [
     _mod("src/nested/mod.rs", "../verif/verif_hash.rs", "verif_hash"),
     _mod("src/nested/mod.rs", "../verif/verif_geom.rs", "verif_geom"),
     _mod("src/nested/mod.rs", "../verif/verif_cone.rs", "verif_cone"),
+    _mod("src/nested/mod.rs", "../verif/verif_poly.rs", "verif_poly"),
 ]
 
 def _c(file, anchor, *attrs, **kw):
